@@ -69,13 +69,13 @@ PLAN = {
     "C18": {"quick": [e3(8000), e1(8000)], "thorough": [e3(80000), e1(80000)]},
     "C19": {"quick": [{"engine": "E7", "params": {"min_T": 120}, "cases": 160, "timeout": 1200}],
             "thorough": [{"engine": "E7", "params": {"min_T": 120}, "cases": 3200, "timeout": 6000}]},
-    "C12": {"quick": [{"engine": "E4", "params": {}, "cases": 16000}, {"engine": "E4", "params": {"ragged": 1, "kind": "cont_nacc"}, "cases": 320}, e3(4000, templates=["line", "fanin", "diamond"])],
-            "thorough": [{"engine": "E4", "params": {}, "cases": 240000}, {"engine": "E4", "params": {"ragged": 1}, "cases": 3200}, e3(40000)]},
-    "C13": {"quick": [{"engine": "E4", "params": {}, "cases": 16000}, e3(4000, templates=["line", "fanin", "diamond"])],
-            "thorough": [{"engine": "E4", "params": {}, "cases": 240000}, e3(40000)]},
-    "C20": {"quick": [{"engine": "E8", "params": {"table": "matrix"}, "cases": 2592}, {"engine": "E8", "params": {"table": "invalid"}, "cases": 26},
+    "C12": {"quick": [{"engine": "E4", "params": {}, "cases": 12000}, {"engine": "E4", "params": {"aligned": 1, "kind": "cont_nacc"}, "cases": 6000}, {"engine": "E4", "params": {"ragged": 1, "kind": "cont_nacc"}, "cases": 320}, e3(4000, templates=["line", "fanin", "diamond"])],
+            "thorough": [{"engine": "E4", "params": {}, "cases": 240000}, {"engine": "E4", "params": {"aligned": 1, "kind": "cont_nacc"}, "cases": 60000}, {"engine": "E4", "params": {"ragged": 1}, "cases": 3200}, e3(40000)]},
+    "C13": {"quick": [{"engine": "E4", "params": {}, "cases": 12000}, {"engine": "E4", "params": {"aligned": 1, "kind": "cont_nacc"}, "cases": 6000}, e3(4000, templates=["line", "fanin", "diamond"])],
+            "thorough": [{"engine": "E4", "params": {}, "cases": 240000}, {"engine": "E4", "params": {"aligned": 1, "kind": "cont_nacc"}, "cases": 60000}, e3(40000)]},
+    "C20": {"quick": [{"engine": "E8", "params": {"table": "matrix"}, "cases": 2592}, {"engine": "E8", "params": {"table": "invalid"}, "cases": 38},
                       e3(8000), e1(8000, kinds=ALL_KINDS)],
-            "thorough": [{"engine": "E8", "params": {"table": "matrix"}, "cases": 7776}, {"engine": "E8", "params": {"table": "invalid"}, "cases": 26},
+            "thorough": [{"engine": "E8", "params": {"table": "matrix"}, "cases": 7776}, {"engine": "E8", "params": {"table": "invalid"}, "cases": 38},
                          e3(80000), e1(80000, kinds=ALL_KINDS)]},
     "C14": {"quick": [e5(12000), e1(6000, kinds=["fleet"])], "thorough": [e5(200000), e1(80000, kinds=["fleet"])]},
 }
@@ -105,7 +105,7 @@ RULES = {
     "C12": "E4: scripted producer/consumer on one conveyor (continuous/slotted x accumulating/not; integer belt lengths that are multiples of the item length, plus a 'ragged' geometry class; regular/bursty/irregular/saturating arrivals; eager/stalling consumers) + conveyor edges of E3 factories; "
            "non-trivial = >=8 items and (a put and a get in one instant, or >=4 undisturbed journeys checked for exact travel time); distinct by operation-log / spec hash",
     "C13": "E4 stalling-consumer scripts + conveyor edges of E3 factories; non-trivial = >=2 stalls with >=2 items on the belt during one of them; distinct by operation-log / spec hash",
-    "C20": "E8: the complete single-stage matrix node type x edge-in x edge-out x blocking x policy x source blocking x zero delays (2592 models; x3 construction orders in thorough) and the table of 26 invalid configurations (both exhaustive), "
+    "C20": "E8: the complete single-stage matrix node type x edge-in x edge-out x blocking x policy x source blocking x zero delays (2592 models; x3 construction orders in thorough) and the table of 38 invalid configurations (both exhaustive), "
            "+ E3 random factories (every documented combination) + E1 histories on all store kinds incl. belts; non-trivial = every model counts (the property is about each of them); distinct by model index / spec hash",
     "C14": "E5: scripted loading/consumption on one Fleet (capacity 1-5, delay .5-3, transit 0-1.5, gaps aligned with trip boundaries) + E1 fleet histories; "
            "non-trivial = >=3 batches, >=1 capacity departure, >=1 timer departure and >=1 load while a trip was under way; distinct by operation-log hash",
@@ -132,7 +132,7 @@ FLOORS = {
     "C17": {"quick": {"cases": 960, "distinct_nontrivial": 744, "c17_nodes_checked": 4628, "c17_integrations": 3532}},
     "C18": {"quick": {"cases": 1920, "distinct_nontrivial": 1034, "c18_edge_avg_checks": 4405, "c18_received_items": 17513}},
     "C19": {"quick": {"cases": 19, "distinct_nontrivial": 8, "c19_runs_compared": 96, "c19_child_interpreters": 38}},
-    "C20": {"quick": {"cases": 2234, "distinct_nontrivial": 1274, "c20_matrix_models": 2592, "c20_invalid_configs": 26}},
+    "C20": {"quick": {"cases": 2234, "distinct_nontrivial": 1274, "c20_matrix_models": 2592, "c20_invalid_configs": 38}},
 }
 for _p, _d in FLOORS.items():
     if "thorough" not in _d:
